@@ -345,11 +345,13 @@ func init() {
 		s.Register("rec", recHandler)
 		s.Register("onlyA", runHandler)
 		s.Register("relay", relayHandler)
+		s.Register("seq", seqHandler)
 	}
 	native.Contracts[addrB] = func(s *native.NativeService) {
 		s.Register("run", runHandler)
 		s.Register("onlyB", runHandler)
 		s.Register("relay", relayHandler)
+		s.Register("seq", seqHandler)
 	}
 	families["atomic"] = func() hx.Family { return &atomic{reps: 1, native: true} }
 	// C16 (a): the same ops, every block executed 5 (thorough 25) times on two ledgers with the same history, plus blocks of
@@ -918,7 +920,7 @@ func (f *atomic) nativeTxs(toks []string) ([]*types.Transaction, bool) {
 		switch s {
 		case "op":
 			var ks []keypair.PublicKey
-			for _, k := range valKeys {
+			for _, k := range valKeys[:nValidators] {
 				ks = append(ks, k.pub)
 			}
 			a, _ := types.AddressFromBookkeepers(ks)
@@ -928,7 +930,23 @@ func (f *atomic) nativeTxs(toks []string) ([]*types.Transaction, bool) {
 		case "oth":
 			return othKey.addr, true
 		}
-		if len(s) == 2 && s[0] == 'v' && s[1] >= '1' && s[1] <= '4' {
+		if strings.HasPrefix(s, "op:") && len(s) > 4 && allDigits(s[3:]) {
+			// the operator address of the consensus set made of the listed validators (after others left)
+			var ks []keypair.PublicKey
+			for _, d := range s[3:] {
+				if d < '1' || d > '8' {
+					return common.Address{}, false
+				}
+				if d == '8' { // the candidate node key, once it has been approved and an epoch change made it a consensus peer
+					ks = append(ks, candKey.pub)
+				} else {
+					ks = append(ks, valKeys[d-'1'].pub)
+				}
+			}
+			a, _ := types.AddressFromBookkeepers(ks)
+			return a, true
+		}
+		if len(s) == 2 && s[0] == 'v' && s[1] >= '1' && s[1] <= '7' {
 			return valKeys[s[1]-'1'].addr, true
 		}
 		return common.Address{}, false
@@ -1269,7 +1287,7 @@ func (f *atomic) Gen(r *hx.Run) {
 // genNative: blocks of real governance transactions; every handler that ranges over a Go map is on the path
 // (CheckConsensusSigns, GetCurConOperator, executeCommitDpos, BlackNode, UpdateFee, peer pool (de)serialisation).
 func (f *atomic) genNative(r *hx.Run, id *int) {
-	vals := []string{"v1", "v2", "v3", "v4"}
+	vals := []string{"v1", "v2", "v3", "v4", "v5", "v6", "v7"}
 	each := func(method string, variant int, who []string) string {
 		var t []string
 		for _, v := range who {
@@ -1295,23 +1313,27 @@ func (f *atomic) genNative(r *hx.Run, id *int) {
 	for c := 0; c < n; c++ {
 		*id++
 		r.Case(fmt.Sprintf("native-%d", *id))
-		three := []string{vals[r.Rng.Intn(4)]}
-		for len(three) < 3 {
-			v := vals[r.Rng.Intn(4)]
-			dup := false
-			for _, x := range three {
-				dup = dup || x == v
-			}
-			if !dup {
-				three = append(three, v)
-			}
+		// a quorum of approvers: 5 of the 7 consensus validators, in random order
+		perm := r.Rng.Perm(7)
+		var three []string
+		for _, i := range perm[:5] {
+			three = append(three, vals[i])
 		}
 		block("node_manager/registerCandidate;0;own;own side_chain_manager/registerSideChain;0;own;own relayer_manager/registerRelayer;0;own;own neo3_state_manager/registerStateValidator;0;own;own node_manager/registerCandidate;1;oth;oth", true)
 		block(each("node_manager/approveCandidate", 0, three)+" "+each("side_chain_manager/approveRegisterSideChain", 0, three)+" "+
 			each("relayer_manager/approveRegisterRelayer", 0, three)+" "+each("neo3_state_manager/approveRegisterStateValidator", 0, three), true)
 		block("node_manager/commitDpos;0;op;op node_manager/updateConfig;"+fmt.Sprint(r.Rng.Intn(3))+";op;op cross_chain_manager/BlackChain;0;op;op cross_chain_manager/WhiteChain;0;op;op "+
 			"side_chain_manager/updateSideChain;0;own;own signature_manager/addSignature;0;v1;v1 signature_manager/addSignature;0;v2;v2 signature_manager/addSignature;0;v3;v3", true)
-		block(each("node_manager/blackNode", 0, three)+" node_manager/commitDpos;0;op;op "+each("side_chain_manager/updateFee", 0, vals), true)
+		// several peers leave in the same view change (the epoch change ranges over the peer-pool map): three validators
+		// quit, then commitDpos; or two are black-listed in one step (which runs the epoch change itself)
+		if r.Rng.Bool() {
+			// (the operator is derived from the peers still in consensus: after the quits it is the multi-signature address of
+			// validators 1, 2, 3, 7 and of the candidate that joined in the previous epoch change)
+			block("node_manager/quitNode;0;v4;v4 node_manager/quitNode;1;v5;v5 node_manager/quitNode;2;v6;v6 node_manager/commitDpos;0;op:12378;op:12378", true)
+			block("node_manager/commitDpos;0;op:12378;op:12378 "+each("side_chain_manager/updateFee", 0, vals), true)
+		} else {
+			block(each("node_manager/blackNode", 1+r.Rng.Intn(2), vals)+" node_manager/commitDpos;0;op;op "+each("side_chain_manager/updateFee", 0, vals), true)
+		}
 		block(each("node_manager/whiteNode", 0, three)+" node_manager/quitNode;0;v4;v4 relayer_manager/RemoveRelayer;0;own;own "+each("relayer_manager/approveRemoveRelayer", 0, three)+
 			" header_sync/btc/SyncGenesisHeader;0;oth;oth header_sync/eth/SyncGenesisHeader;0;op;op", true)
 		// random blocks, mostly with the right witness
@@ -1319,7 +1341,7 @@ func (f *atomic) genNative(r *hx.Run, id *int) {
 			var txs []string
 			for i := 0; i < 1+r.Rng.Intn(6); i++ {
 				m := ids[r.Rng.Intn(len(ids))]
-				who := []string{"own", "oth", "op", "v1", "v2", "v3", "v4"}[r.Rng.Intn(7)]
+				who := []string{"own", "oth", "op", "v1", "v2", "v3", "v4", "v5", "v6"}[r.Rng.Intn(9)]
 				signer := who
 				if r.Rng.Chance(1, 4) {
 					signer = []string{"-", "oth", "op", "v1,v2,v3"}[r.Rng.Intn(4)]
